@@ -2,6 +2,7 @@ import S2T.Lemmas.SharePoint
 import S2T.Gen.SharePoint
 import S2T.Props.C18_Folders
 import S2T.Props.C18_Src
+import S2T.Props.C18_Items
 /-!
 # C18 — SharePoint listing is complete, exact and fault-contained
 
